@@ -190,10 +190,30 @@ _NUMATTR = re.compile(rb'([\w:.\-]+)="(\d+)"')
 _ATTR = re.compile(rb'\s([\w:.\-]+)="[^"]*"')
 
 
+VARIANT_TYPES = [2, 3, 5, 7, 8, 11, 19, 30, 31, 64, 65, 71, 0x1003, 0x101E, 0]
+
+
 def edit_member(data: bytes, edit: list) -> bytes:
     k = edit[0]
     if k == "trunc":
         return data[: edit[1] % (len(data) + 1)]
+    if k == "vt_retype":
+        # OLE property set (SummaryInformation ...): the type tag of one property is replaced by another variant type; the container
+        # shell, the section table and the value bytes stay as they are (hostile record content in a valid shell)
+        import struct
+        try:
+            if data[:2] != b"\xfe\xff" or len(data) < 56:
+                return data
+            sec = struct.unpack_from("<I", data, 44)[0]
+            _size, count = struct.unpack_from("<II", data, sec)
+            if not 0 < count < 200:
+                return data
+            _pid, off = struct.unpack_from("<II", data, sec + 8 + 8 * (edit[1] % count))
+            b = bytearray(data)
+            struct.pack_into("<I", b, sec + off, edit[2])
+            return bytes(b)
+        except Exception:
+            return data
     if k == "dupobj":
         # the extent holding one embedded object (with the record header in front of it) was written twice: a second copy follows the data
         objs = object_offsets(data)
@@ -318,6 +338,8 @@ def gen_edit(rng, data: bytes) -> list:
         if k == "num_attr":
             return ["num_attr", rng.randrange(1 << 20), rng.choice(BIG + [2, 3, 100, 5000, 1_048_576])]
         return ["del_attr", rng.randrange(1 << 20)]
+    if data[:4] == b"\xfe\xff\x00\x00" and rng.random() < 0.5:
+        return ["vt_retype", rng.randrange(1 << 16), rng.choice(VARIANT_TYPES)]
     k = rng.choice(["trunc", "flip", "flip", "u16", "u32", "empty", "zerotail", "dupobj"])
     if k == "dupobj":
         return ["dupobj", rng.randrange(1 << 20), rng.choice([25, 25, 41, 8, 0])]
